@@ -5,6 +5,11 @@
 //   t = get_num_trees(); all read from the protected members through a derived class (no change to /repo).
 //   trace=1 : every output token gets the suffix /r:n:m (structure after that operation)
 //   dump=1  : every stored node, in index order, with the index of its parent (-1 = root)
+//   ks=<e>  : key scale.  The key handed to the real heap is ldexp(K, e) for the integer K on the line (exact for
+//             |K| < 2^53 and the scales used, e in {-60,-40,-20,0,20,40,900}); keys are printed back exactly
+//             (vh::num) and checks/c16.py divides by 2^e again before comparing with the model / the specification.
+//             K -> ldexp(K, e) is an order isomorphism, so the model stays on Int keys.
+//   alarm=<s>: per-case watchdog in seconds (default 4)
 // in : more ops=... [trace=1] [dump=1]     continue on the heap of the previous line (used by the guided search,
 //                                          which talks to one long-lived process); the dn= field is repeated
 #include <tapkee/defines.hpp>
@@ -69,13 +74,15 @@ int main()
     {
         if (line.empty())
             continue;
-        vh::case_alarm(4);
         auto f = vh::fields(line);
+        vh::case_alarm(f.count("alarm") ? std::stoi(f["alarm"]) : 4); // alarm=<s>: the 10^5-operation histories
         if (line.rfind("more", 0) != 0 || !heap)
             heap.reset(new open_heap(std::stoi(f["cap"])));
         open_heap& h = *heap;
         bool trace = f.count("trace") && f["trace"] == "1";
         bool dump = f.count("dump") && f["dump"] == "1";
+        int ks = f.count("ks") ? std::stoi(f["ks"]) : 0;
+        auto key_of = [ks](const std::string& t) { return (ScalarType)std::ldexp((double)std::stol(t), ks); };
         std::ostringstream out;
         out << "dn=" << h.dn() << " |";
         for (auto& op : vh::split(f["ops"], ','))
@@ -83,12 +90,12 @@ int main()
             auto p = vh::split(op, ':');
             if (p[0] == "i")
             {
-                h.insert(std::stoi(p[1]), (ScalarType)std::stol(p[2]));
+                h.insert(std::stoi(p[1]), key_of(p[2]));
                 out << " s" << h.get_num_nodes();
             }
             else if (p[0] == "d")
             {
-                ScalarType k = (ScalarType)std::stol(p[2]);
+                ScalarType k = key_of(p[2]);
                 h.decrease_key(std::stoi(p[1]), k);
                 out << " s" << h.get_num_nodes();
             }
